@@ -119,6 +119,20 @@ Proof.
   right. eapply on_failure_fixed; eauto.
 Qed.
 
+(* remove_key (with C20_10): its only failure is the allocation of the replacement table, before anything is touched *)
+Lemma remove_key_failed : forall F m o k o' m' why,
+  step_remove_key cfg_fixed F m o k = (o', m', Some why) -> o' = o.
+Proof.
+  intros F m o k o' m' why H. unfold step_remove_key in H.
+  destruct (find_key k (auxs o) 0) as [i|]; [|inversion H; reflexivity].
+  cbn [exec] in H. destruct (m_alloc F m (8 * (naux o - 1))) as [[id|] m1]; [|inversion H; reflexivity].
+  cbn [fx_rmkey cfg_fixed] in H.
+  match type of H with context[exec F (remove_key_fixed_tail i) ?mm ?oo] =>
+    pose proof (exec_nothrow F (remove_key_fixed_tail i) mm oo eq_refl) as E;
+    destruct (exec F (remove_key_fixed_tail i) mm oo) as [[o2 m2] r2] end.
+  simpl in E. subst r2. discriminate.
+Qed.
+
 (* write_key: observational equality (the slot map is an association list; a local pointer that was set and
    reset leaves the same contents, not the same list) *)
 Definition same_obj (a b : obj) : Prop :=
@@ -274,6 +288,11 @@ Proof.
     match type of H with context[negb ?b] => destruct (negb b) end; [discriminate|]. destruct (ndim o =? 0); discriminate.
   - destruct (get_obj w j) as [o|] eqn:Ej; [|discriminate].
     match type of H with context[negb ?b] => destruct (negb b) end; discriminate.
+  - destruct (get_obj w j) as [o|] eqn:Ej; [|discriminate].
+    match type of H with context[negb ?b] => destruct (negb b) end; [discriminate|].
+    destruct (step_remove_key cfg_fixed F (wm w) o k) as [[o' m'] [why|]] eqn:E; simpl in H; [|discriminate].
+    injection H as Hw Hr; subst w'.
+    split; [|apply Hset]. rewrite Hsame. left. rewrite (remove_key_failed F (wm w) o k o' m' why E). reflexivity.
 Qed.
 
 (* ---------------------------------------------------------------------------------------------- *)
@@ -298,6 +317,12 @@ Definition h_perm := [ONew 0; OPermute 0 []; ODestroy 0].
 Definition h_convbad := [ONew 0; OConvolve 0 0 2; ODestroy 0].
 Definition h_moveasg := [ONew 0; ORead 0 fileA; ONew 1; OMoveAssign 0 1].
 Definition h_newread := [ONewRead 0 fileT].
+
+(* remove_key: two keys, the first one removed; allocations 1-8 are write_key's, 9 is the parking array / the new table,
+   10 (unchanged tree only) the re-allocation of the table *)
+Definition key3 : auxent := {| akey := 3; aklen := 5; avlen := 4 |}.
+Definition h_rmkey_pre := [ONew 0; OWriteKey 0 false key2; OWriteKey 0 false key3; ORemoveKey 0 2].
+Definition h_rmkey := h_rmkey_pre ++ [ORemoveKey 0 7; OWriteKey 0 false key2; ORemoveKey 0 2; ORemoveKey 0 3; ODestroy 0].
 
 Definition clean (c : cfg) (F : nat -> bool) (xs : list op) : bool :=
   let w := run_world c F xs in
@@ -333,6 +358,24 @@ Lemma refuted_aux_value_size : errs (wm (run_world cfg_orig no_fault h_read)) = 
 Proof. vm_compute. reflexivity. Qed.
 Lemma refuted_reading_ctor_leaks : lost (wm (run_world cfg_orig no_fault h_newread)) <> [].
 Proof. vm_compute. discriminate. Qed.
+
+(* the tree without C20_10: when the re-allocation of the key table fails inside remove_key the object keeps the address of the
+   released table (naux already decremented) and the call reports failure; the destructor then walks released memory *)
+Lemma refuted_remove_key_alloc_fault :
+  (exists o, get_obj (run_world cfg_no_rmkey (fault_at 10) h_rmkey_pre) 0 = Some o /\ get o FAux = Dangling /\ naux o = 1
+             /\ length (hp (wm (run_world cfg_no_rmkey (fault_at 10) h_rmkey_pre))) = 3)
+  /\ snd (run cfg_no_rmkey (fault_at 10) world0 h_rmkey_pre) = [Ok; Ok; Ok; Failed RAlloc]
+  /\ crashed (run_world cfg_no_rmkey (fault_at 10) (h_rmkey_pre ++ [ODestroy 0])) = true
+  /\ clean cfg_no_rmkey no_fault h_rmkey = true /\ clean cfg_no_rmkey (fault_at 9) h_rmkey = true.
+Proof. split; [eexists; vm_compute; repeat split|]. vm_compute. repeat split. Qed.
+
+(* with C20_10 every single allocation-failure position of that history is clean, and the failed call leaves the object as it was *)
+Lemma fixed_clean_all_faults_h_rmkey : forallb (fun k => clean cfg_fixed (fault_at k) h_rmkey) (seq 0 24) = true.
+Proof. vm_compute. reflexivity. Qed.
+Lemma fixed_remove_key_alloc_fault_unchanged :
+  snd (run cfg_fixed (fault_at 9) world0 h_rmkey_pre) = [Ok; Ok; Ok; Failed RAlloc]
+  /\ get_obj (run_world cfg_fixed (fault_at 9) h_rmkey_pre) 0 = get_obj (run_world cfg_fixed no_fault [ONew 0; OWriteKey 0 false key2; OWriteKey 0 false key3]) 0.
+Proof. vm_compute. split; reflexivity. Qed.
 
 Lemma fixed_clean_examples :
   clean cfg_fixed no_fault h_trunc = true /\ clean cfg_fixed (fault_at 5) h_read = true /\ clean cfg_fixed no_fault h_wkey = true
